@@ -370,9 +370,24 @@ mod g_core {
 						e.write().await.rl.block_until_allowed().await;
 					})
 					.await;
+					let waited = t0.elapsed().as_millis() as u64;
+					// the requests that follow the first one (new-nonce, new-account): only "does not kill the process" is asked of them,
+					// a limiter that makes them wait is doing its job
+					let mut more = 0;
+					if res.is_ok() {
+						for _ in 0..2 {
+							let r2 = tokio::time::timeout(Duration::from_millis(300), async {
+								e.write().await.rl.block_until_allowed().await;
+							})
+							.await;
+							if r2.is_ok() {
+								more += 1;
+							}
+						}
+					}
 					eps.push(json!({
 						"endpoint": name, "admitted": res.is_ok(),
-						"waited_ms": t0.elapsed().as_millis() as u64,
+						"waited_ms": waited, "further_admitted": more,
 						"rl": format!("{:?}", e.read().await.rl),
 					}));
 				}
